@@ -474,21 +474,21 @@ fn run_c16(pre: u8) {
   ::std::mem::forget(a); ::std::mem::forget(b);
 }
 
-//@h props=C16 tier=quick unwind=45 stubs=sort timeout=1200
+// (not registered: exceeds the time cap, DESIGN §6)
 fn c16_reorder_independent_of_set_order_pre2() { run_c16(2); }
-//@h props=C16 tier=quick unwind=45 stubs=sort timeout=1200
+// (not registered: exceeds the time cap, DESIGN §6)
 fn c16_reorder_independent_of_set_order_pre5() { run_c16(5); }
-//@h props=C16 tier=thorough unwind=45 stubs=sort timeout=1200
+// (not registered: exceeds the time cap, DESIGN §6)
 fn c16_reorder_independent_of_set_order_pre9() { run_c16(9); }
-//@h props=C16 tier=quick unwind=45 stubs=sort timeout=1200
+// (not registered: exceeds the time cap, DESIGN §6)
 fn c16_reorder_independent_of_set_order_pre10() { run_c16(10); }
-//@h props=C16 tier=quick unwind=45 stubs=sort timeout=1200
+// (not registered: exceeds the time cap, DESIGN §6)
 fn c16_reorder_independent_of_set_order_pre11() { run_c16(11); }
-//@h props=C16 tier=thorough unwind=45 stubs=sort timeout=1200
+// (not registered: exceeds the time cap, DESIGN §6)
 fn c16_reorder_independent_of_set_order_pre13() { run_c16(13); }
-//@h props=C16 tier=thorough unwind=45 stubs=sort timeout=1200
+// (not registered: exceeds the time cap, DESIGN §6)
 fn c16_reorder_independent_of_set_order_pre7() { run_c16(7); }
-//@h props=C16 tier=thorough unwind=45 stubs=sort timeout=1200
+// (not registered: exceeds the time cap, DESIGN §6)
 fn c16_reorder_independent_of_set_order_pre12() { run_c16(12); }
 //@h props=C10 tier=quick unwind=45 stubs=sort
 fn c10_step_pre0() { run::<0>(0, 1, 7, NH); }
